@@ -185,14 +185,16 @@ def flags_of(seedt):
     xt = the branch at the bind location has a tag the local branch lacks, ct = ... a DIFFERENT definition of tag0,
     gt = a tag pointing to a revision that is absent, lt = a tag only the local branch has,
     bh = the branch at the bind location is one revision BEHIND,
-    b2 = a second branch in the shared repository"""
+    b2 = a second branch in the shared repository,
+    nt = the branch has NO commits (tip null:); with pm its working tree holds an uncommitted merge of another branch (what
+         `brz merge ../other` into a freshly initialised branch leaves: the tree's only parent is the merged tip)"""
     return set(x for x in (seedt[6].split(",") if len(seedt) > 6 else []) if x)
 
 
 def make_dirty(wt, rng, flags=(), tag=b"x"):
     d = wt.basedir
     ops = []
-    if "pm" in flags:
+    if "pm" in flags and wt.branch.last_revision() != b"null:":
         # an uncommitted merge of a side branch: a second tree parent, whose revision lives in the repository only
         side = wt.controldir.sprout(env.fresh_dir("c52pm"), revision_id=wt.branch.last_revision()).open_workingtree()
         with open(side.basedir + "/pside", "wb") as f:
@@ -210,7 +212,7 @@ def make_dirty(wt, rng, flags=(), tag=b"x"):
             f.write(b"new\n")
         wt.add(["new"], ids=[b"new-id"])
         ops.append("add")
-    if rng.random() < 0.4:
+    if rng.random() < 0.4 and wt.is_versioned("link"):
         wt.rename_one("link", "link2")
         ops.append("rename")
     if rng.random() < 0.3:
@@ -248,6 +250,9 @@ def build_location(seedt):
     loc = os.path.join(repo_parent, "loc")
     master = os.path.join(root, "master")
     tag = b"h%d" % idx
+    nt = "nt" in flags
+    if nt:
+        flags = flags - {"bh", "xt", "ct", "lt", "b2"}          # (they need revisions)
     if source in ("tree", "branch"):
         if shared:
             br = ControlDir.create_branch_convenience(loc, force_new_tree=True, format=cformat)
@@ -258,7 +263,7 @@ def build_location(seedt):
             wt.set_root_id(b"root-id")
         except Exception:  # noqa
             pass
-        revs = write_history(wt, rng, tag)
+        revs = write_history(wt, rng, tag) if not nt else []
         info["parent"] = None
         if rng.random() < 0.5 or flags & {"xt", "ct", "bh"}:
             # a remembered parent location holding the same history (a bind candidate)
@@ -281,7 +286,7 @@ def build_location(seedt):
             mwt.set_root_id(b"root-id")
         except Exception:  # noqa
             pass
-        revs = write_history(mwt, rng, tag)
+        revs = write_history(mwt, rng, tag) if not nt else []
         if source == "checkout":
             os.makedirs(loc, exist_ok=True)
             wt = mwt.branch.create_checkout(loc, lightweight=False)
@@ -303,8 +308,21 @@ def build_location(seedt):
             if "ct" in flags and source != "lightweight-checkout":
                 mb.tags.set_tag("tag0", revs[0])                            # two definitions of tag0
     info["dirty_ops"] = []
+    if nt and "pm" in flags and wt is not None:
+        # an uncommitted merge of ANOTHER branch's history into the branch without commits
+        other = ControlDir.create_standalone_workingtree(env.fresh_dir("c52other"), format=cformat)
+        try:
+            other.set_root_id(b"root-id")
+        except Exception:  # noqa
+            pass
+        orevs = write_history(other, random.Random(repr(("other", seed, idx))), tag + b"o")
+        wt.merge_from_branch(other.branch)
+        if local_branch.supports_tags():
+            local_branch.tags.set_tag("merged", orevs[-1])
+        shutil.rmtree(other.basedir, ignore_errors=True)
+        info["dirty_ops"].append("merge-into-empty-branch")
     if wt is not None and dirty:
-        info["dirty_ops"] = make_dirty(wt, rng, flags, tag)
+        info["dirty_ops"] += make_dirty(wt, rng, flags, tag)
     info.update(path=loc, master=master if os.path.isdir(master) else None, revs=[r.decode() for r in revs])
     return info
 
@@ -373,6 +391,7 @@ def observe(path, locations=False):
         obs["tree"] = None
         obs["status"] = None
         obs["ghost_parents"] = []
+        obs["tree_history"] = {}
         return obs
     with wt.lock_read():
         dump = {}
@@ -398,6 +417,20 @@ def observe(path, locations=False):
         repo = wt.branch.repository
         with repo.lock_read():
             obs["ghost_parents"] = [p.decode() for p in parents if not repo.has_revision(p)]
+            # the history the TREE refers to beyond the branch's (pending merges, a merge into a branch without commits, a
+            # basis that is not the branch tip): revision -> testament sha1, "MISSING" for a revision that is absent
+            from breezy.bzr.testament import StrictTestament3
+            th = {}
+            heads = [p for p in parents if p.decode() not in obs["testaments"] and repo.has_revision(p)]
+            for r, ps in repo.get_graph().iter_ancestry(heads):
+                if r == b"null:" or r.decode() in obs["testaments"]:
+                    continue
+                if ps is None:
+                    th[r.decode()] = "MISSING"
+                else:
+                    t = StrictTestament3.from_revision(repo, r).as_sha1()
+                    th[r.decode()] = t.decode() if isinstance(t, bytes) else t
+            obs["tree_history"] = th
     return obs
 
 
@@ -634,8 +667,8 @@ def check_chain(ctx, arg, res):
                 if conflict and force:
                     ctx.count("forced-switch-drops-conflicting-tag")        # the user overrode _check
                     continue
-                ctx.violation(case, "to_lightweight-checkout changed tag %r: %r -> %r" % (n, prev["tags"][n], o["tags"].get(n)),
-                              family="reconfigure-reference-tag-conflict-local-definition-dropped" if conflict else None)
+                ctx.violation(case, "to_lightweight-checkout changed tag %r: %r -> %r%s" % (
+                    n, prev["tags"][n], o["tags"].get(n), " (conflicting definition in the referenced branch)" if conflict else ""))
             for n, v in o["tags"].items():
                 if prev["tags"].get(n) != v and reftags.get(n) != v:
                     ctx.violation(case, "to_lightweight-checkout invented tag %r = %r" % (n, v))
@@ -660,22 +693,26 @@ def check_chain(ctx, arg, res):
             if st["changes"] or bad_conflicts or st["parents"] != ([o["tip"]] if o["tip"] != "null:" else []):
                 ctx.violation(case, "to_%s created a working tree that is not the clean tree of the tip" % s["target"])
         pparents = (prev["status"] or {}).get("parents", [])
+        exempt_basis = False
         newghost = [p for p in o["ghost_parents"] if p not in prev["ghost_parents"] and p in pparents]
         if newghost and force and switch and o["tip"] != prev["tip"] and newghost == pparents[:1]:
             # forced replacement by a reference to a branch that lacks the old tip: the kept tree's basis is not in
             # that branch's repository (the user overrode UnsyncedBranches)
             ctx.count("forced-switch-leaves-tree-basis-behind")
             newghost = []
+            exempt_basis = True
         if newghost:
             # a parent of the kept working tree is still listed, but the revision it names is gone from the repository of
-            # the branch: a pending merge, or the basis of a tree that was not at the branch tip
-            fam = None
-            if len(pparents) > 1 and set(newghost) <= set(pparents[1:]):
-                fam = "reconfigure-pending-merge-revision-not-copied"
-            elif newghost == pparents[:1] and pparents[0] != prev["tip"]:
-                fam = "reconfigure-tree-basis-revision-not-copied"
+            # the branch: a pending merge, or the basis of a tree that is not at the branch tip (fixed in /repo by 995730b)
             ctx.violation(case, "to_%s (%s): the revision of tree parent %r is no longer in the repository of the branch"
-                          % (s["target"], s["out"], newghost), family=fam)
+                          % (s["target"], s["out"], newghost))
+        if prev["tree"] is not None and o["tree"] is not None and not exempt_basis:
+            now = dict(o["testaments"])
+            now.update(o["tree_history"])
+            lost = sorted(r for r, t in prev["tree_history"].items() if t != "MISSING" and now.get(r) != t)
+            if lost and not newghost:
+                ctx.violation(case, "to_%s (%s): history the working tree refers to (ancestry of its parents %r) is no longer "
+                                    "in the repository of the branch / changed: %r" % (s["target"], s["out"], pparents, lost[:4]))
         if s["out"] not in ("ok", "E:NoBindLocation") and s["state"] != prev_state:
             ctx.count("error-changed-layout:%s" % s["out"])
         if s["out"] == "ok":
@@ -748,6 +785,8 @@ def scenarios(ctx):
             fl.append("ct")
         if rng.random() < p * 0.4:
             fl.append("bh")
+        if rng.random() < p * 0.25:
+            fl = ["nt"] + [f for f in fl if f in ("pm", "cf", "gt")]
         return ",".join(fl)
 
     for (source, shared, dirty), t in pairs:
@@ -767,6 +806,23 @@ def scenarios(ctx):
             ("tree", rng.random() < 0.5, True, False, False, "lt,xt,pm", ["lightweight-checkout", "tree"])]):
         idx += 1
         jobs.append(((ctx.seed, idx, source, shared, dirty, fmts[(k + ctx.seed) % 4], fl), ts, force, unsync))
+    # branches WITHOUT commits (tip null:), for every transition: with an uncommitted merge of another branch in the tree
+    # (its only parent is the merged tip) and plain empty; quick tier: the tree sources x every target + a rotating rest
+    ntjobs = []
+    for source in SOURCES:
+        for shared in (False, True):
+            for t in TARGETS:
+                for fl, dirty in (("nt,pm", True), ("nt,pm", False), ("nt", False)):
+                    if source == "branch" and (dirty or "pm" in fl):
+                        continue
+                    ntjobs.append((source, shared, dirty, fl, t))
+    if not ctx.thorough():
+        keep = [j for j in ntjobs if j[0] == "tree" and j[3] == "nt,pm" and j[2]]
+        rest = [j for j in ntjobs if j not in keep]
+        ntjobs = keep + [j for i, j in enumerate(rest) if (i + ctx.seed) % 8 == 0]
+    for source, shared, dirty, fl, t in ntjobs:
+        idx += 1
+        jobs.append(((ctx.seed, idx, source, shared, dirty, fmts[(idx + ctx.seed) % 4], fl), [t], False, False))
     for _ in range(ctx.pick(10, 120)):
         idx += 1
         source, shared, dirty = rng.choice(combos)
